@@ -10,6 +10,8 @@ CONSTANTS
   Emit = FALSE
   CharSigned = FALSE
   EUSuffixed = {}
+  GenClasses = {"scalar", "array", "bitfield", "nested", "anon", "alignas", "flex"}
+  GenPacked = TRUE
   CheckSim = FALSE
 POSTCONDITION TraceAccepted
 CHECK_DEADLOCK FALSE
